@@ -410,6 +410,26 @@ var ops = []op{
 			if t.Ann == nil {
 				lastBinder = &t.Y
 			}
+			if t.Op == "new" && t.Body != nil && t.Body.Op == "call" && r.Intn(2) == 0 {
+				// ... and the call names its provider by that very name: x <- new f(x, a)
+				inArgs := false
+				for _, a := range t.Body.Args {
+					if Base(a) == z {
+						inArgs = true
+					}
+				}
+				if !inArgs {
+					cb := *t.Body
+					args := cb.Args
+					if f := p.FuncByName(cb.Fn); f != nil && len(args) == len(f.Params)+1 {
+						args = args[1:]
+					}
+					cb.Args = append([]string{z}, args...)
+					t.Body = &cb
+					lastBinder = nil
+					return fmt.Sprintf("cut binder renamed to %s (whose own consumer was deleted) and named as the provider argument of the call in %s", z, c.s.where)
+				}
+			}
 		}
 		return fmt.Sprintf("%s binder renamed to %s whose own consumer was deleted in %s", t.Op, z, c.s.where)
 	}},
